@@ -15,7 +15,7 @@ CHECKS = {
          'Leaf fitting itself is not part of this property (a leaf with an empty validation set is scored on its own rows by the harness).'),
 
  'C01': ('DESIGN.md §4 C01',
-         'Coq proof (Permutation + sorted-uniqueness, induction over trees) of an executable model of routing/grouping/chunking/argsort-reorder + vm_compute correspondence through exact probe leaves + mpmath formula oracle',
+         'Coq proof (Permutation + sorted-uniqueness, induction over trees) of an executable model of routing/grouping/chunking/argsort-reorder + routing operators (splitarith) and the control skeleton of the prediction pipeline (predops) re-translated from the source each run + vm_compute correspondence through exact probe leaves + mpmath formula oracle',
          'Theorem for every tree, batch, batch size and row-wise leaf predictor: the traversal/reorder pipeline returns f(leaf reached by <=, x) per row; corollaries: batch-size, concatenation, permutation, row independence, ensemble mean. '
          'The real _predict_tree_hard/predict are run on probe leaves (real RFM.predict loop, stubbed kernel) and compared bit-for-bit with the model in Coq; real leaves are compared with the mpmath kernel expansion of the leaf reached by exact routing.',
          'Trusted: Coq kernel + vm_compute, probe leaf, Fraction/mpmath oracle. Kernel values themselves are C05. Rows within rounding distance of a threshold are excluded (as the property states).'),
@@ -31,7 +31,7 @@ CHECKS = {
          'Trusted: Coq kernel + vm_compute, recorders, slack e bounding float32 projection rounding; torch.sort sorts, torch.median is the lower median (both checked through tokb on every recorded node).'),
 
  'C02': ('DESIGN.md §4 C02',
-         'Coq proof (invariant over the fit loop) of state coherence for every history/switch setting + decision operators / snapshot table / loop skeleton re-translated from the source each run and proved equal to the model (selectarith) + vm_compute correspondence of the real RFM.fit with tagged stubs + residual check of real fits incl. mpmath closed-form Gram matrix',
+         'Coq proof (invariant over the fit loop) of state coherence for every history/switch setting; ridge-system theorems (equivalent forms, uniqueness for PSD K, residual bound) + decision operators / snapshot table / loop skeleton (selectarith) and the least-squares solve path (solveops) re-translated from the source each run and proved equal to / instantiated on the models + vm_compute correspondence of the real RFM.fit with tagged stubs + residual check of real fits incl. mpmath closed-form Gram matrix',
          'Theorem: for every score history, iteration budget, early-stop and best-restore setting the stored coefficients were solved with exactly the stored feature-matrix version and bandwidth (hypothesis: nothing is worse than the infinite sentinel; refuted-without-hypothesis example). '
          'The real loop is driven with scripted scores and tagged solve/AGOP stubs and compared with the model in Coq on binary64; real leaf fits (all CPU kernels, solvers, dtypes, adaptive bandwidth) are checked for (K+lambda I) alpha = Y with K of the stored state and, for n<=10, with the Gram matrix of the documented closed form.',
          'Trusted: Coq kernel + vm_compute (PrimFloat), stubs, LAPACK solve contract (residual of a returned solution is small), mpmath. The ridge identity itself is numeric (tolerance 200 n u scale).'),
@@ -52,12 +52,12 @@ CHECKS = {
          'Trusted: Coq kernel + vm_compute (PrimFloat), scripted metric object patched into the harness process only, numpy metric re-implementations.'),
 
  'C12': ('DESIGN.md §4 C12',
-         'Coq proofs over Q lists (clamp/normalise gives a distribution with explicit lower bound, mixtures of distributions, argmax range, label = argmax via the C01 routing theorem) + vm_compute of the Q model on the implementation\'s raw leaf outputs',
+         'Coq proofs over Q lists (clamp/normalise gives a distribution with explicit lower bound, mixtures of distributions, argmax range, label = argmax via the C01 routing theorem) + decoder op sequences re-translated from the source each run and proved equal to the model (convops), prediction skeleton (predops) + vm_compute of the Q model on the implementation\'s raw leaf outputs',
          'Theorems for every finite raw vector, K, eps in (0,1/2): the decoded row has K strictly positive entries summing to one; convex mixtures (tree mean, soft routing) of such rows sum to one; the label is a class id; for a single hard tree the label vector is the row-wise argmax of the probability matrix. '
          'Real classification fits (2-6 classes, 95:5 imbalance, both encodings, all metrics, 1-3 trees incl. fewer trees built than requested, hard/soft, rows at 1e6) are checked row by row and decoded again by the Q model in Coq.',
          'Trusted: Coq kernel + vm_compute, float32->Q printing (tolerance 3e-5). Kernel values are C05; the prior/zero decoding algebra is C13.'),
  'C13': ('DESIGN.md §4 C13',
-         'MathComp proof (matrix algebra over any ordered field) of the prevalence-code construction + Coq proofs over Q lists of decode validity / round trips + vm_compute checker on the converter\'s actual float32 matrices',
+         'MathComp proof (matrix algebra over any ordered field) of the prevalence-code construction + Coq proofs over Q lists of decode validity / round trips + decoder op sequences / encoder / construction re-translated from the source each run (convops) + vm_compute checker on the converter\'s actual float32 matrices',
          'Theorems for every K, every prior (zeros allowed), every Q meeting the QR contract: code matrix invertible, codes decode to unit vectors, zero decodes to the prior, codes equidistant (squared distance 2), decoding affine; explicit rational K=4 instance. Executable model: any finite vector decodes to a valid row; zero_one round trip; prevalence round trip for any matrices passing the checker. '
          'The real converter (K 2..12, count grids incl. zeros and 1000:1) is compared with the model and its _C/_invA/_prior are checked in Coq.',
          'Trusted: Coq kernel + vm_compute, MathComp 1.15, float32->Q printing; torch.linalg.qr / inv accuracy is checked per instance (converter_okb, delta 1e-4), not assumed.'),
@@ -84,10 +84,10 @@ CHECKS = {
          'Per run: with_env_var and the thread blocks are matched structurally in the source, other writers of process-wide settings and in-place operations on parameters are enumerated against allow-lists; random call trees run through the real decorator and are compared with the event model in Coq; every public call is run on tensors/arrays whose bytes and _version are compared, with probes inside fit.',
          'partial: aliasing of caller tensors is observed only. Trusted: Coq kernel + vm_compute, AST matchers, byte/_version comparison.'),
  'C20': ('DESIGN.md §4 C20',
-         'Coq proof over a thin coercion model (finite case analysis) + vm_compute correspondence of the observed canonical leaf inputs + bitwise differential across representations',
+         'Coq proof over a coercion model (finite case analysis) + the coercion block of fit executed abstractly on every representation and proved equal to the model on the whole finite domain by vm_compute (coerceops) + prediction skeleton (predops) + vm_compute correspondence of the observed canonical leaf inputs + bitwise differential across representations',
          'Theorems: all accepted feature representations share one canonical form; the task type depends only on metric and float-ness of the target dtype; the canonical target format is independent of container, width and (n,)/(n,1). '
-         'Per run: identical data in every representation (tensor/array, float32/64, int8..int64/uint8, flat/column) is fitted with identical seeds; canonical leaf inputs (recording subclass) and predictions must be bitwise equal, output shapes/dtypes as stated.',
-         'partial: thin model; equality of results is observed. Trusted: Coq kernel + vm_compute, recording subclass.'),
+         'Per run: identical data in every representation (tensor/array, float32/64, int8..int64/uint8, flat/column, float-coded class targets) is fitted with identical seeds; canonical leaf inputs (recording subclass) and predictions (fresh rows and the training rows) must be bitwise equal, output shapes/dtypes as stated.',
+         'partial: equality of results is observed. Trusted: Coq kernel + vm_compute, the abstract interpreter of harness/coerceops.py, recording subclass.'),
 
  'C05': ('DESIGN.md §4 C05',
          'Coq proofs (Reals, lists of any dimension) that each kernel\'s tensor-operation sequence equals the documented closed form; positive semi-definiteness PROVED for all inputs by explicit feature maps for the product / Lpq(p=q=1) / sum-power kernels with exponent 1 and for the Gaussian case of the L2 kernel, and certified per Gram matrix otherwise by an exact LDL^T certificate checker with a soundness theorem + the op sequences re-translated from the source each run by symbolic execution of a generic entry and proved equal to the model (kernelops) + interval-certified correspondence of real kernel-matrix entries + mpmath closed-form oracle',
@@ -108,7 +108,7 @@ CHECKS = {
          'partial: matrix root (SVD) is a contract (checked numerically), gradient values are C04; the 1e-8 diagonal ridge that the matrix-power routine adds in place is accepted with or without (the property does not ask for it); get_agop / get_agop_diag reductions are re-translated from the source each run (gradops). KNOWN FINDING: center_grads=True is batch-size dependent.'),
 
  'C19': ('DESIGN.md §4 C19',
-         'Coq proofs (Reals) of scale invariance of the Laplace-family closed forms, homogeneity of the lower median and of the closed-form L2 gradient, and the composition theorem (a whole fit commutes with rescaling when its components are homogeneous; solver arbitrary) + vm_compute order-statistic check of the stored bandwidth + rescaling differential',
+         'Coq proofs (Reals) of scale invariance of the Laplace-family closed forms, homogeneity of the lower median and of the closed-form L2 gradient, the bandwidth update as coded (= base x median of distances, homogeneous), and the composition theorem (a whole fit commutes with rescaling when its components are homogeneous; solver arbitrary) + _adapt_bandwidth and its call sites re-translated from the source each run (bwops, kernelops) + vm_compute order-statistic check of the stored bandwidth + rescaling differential',
          'Theorems for every dimension, transform, exponent, c > 0: K_{cL}(cx, cz) = K_L(x, z) for the L2, product and Lpq kernels; lower_median(c * l) = c * lower_median(l). '
          'After real adaptive fits (l2, l2_high_dim, l1, lpq; iters 0-4; early stop / best-restore) the stored bandwidth is compared with base x lower median of the pairwise kernel-norm distances of the transformed training points under the stored feature matrix (order-statistic claim checked in Coq), and predictions on inputs rescaled by 1e-3..1e3 are compared with the unscaled fit.',
          'partial: that a whole fit commutes with scaling uses the solver/median contracts; float effects (eps mask, 1e-30) are bounded by tolerances. Trusted: Coq kernel, vm_compute, real-number axioms, float64 distance recomputation.'),
